@@ -38,12 +38,23 @@ def UOD():
     return Universe([Node('a', 'R', 'a'), Node('adb', 'R', 'a.b'), Node('a_b', 'a', 'b'), Node('x', 'R', 'x', True)], 'UOD')
 
 
+def UOT():
+    """transfers inside one overlay: a directory with a child, a root file, and the image positions /x, /x/b"""
+    return Universe([Node('a', 'R', 'a'), Node('a_b', 'a', 'b'), Node('f', 'R', 'f', kinds=('f',)), Node('x', 'R', 'x', True),
+                     Node('x_b', 'x', 'b', True)], 'UOT')
+
+
+TRANSFERS = [('move_file', 'f', 'x'), ('copy_file', 'f', 'x'), ('move_file', 'a_b', 'x'), ('copy_file', 'a_b', 'x'), ('move_file', 'f', 'a_b'),
+             ('move_file', 'a_b', 'x_b'), ('move_dir', 'a', 'x'), ('copy_dir', 'a', 'x'), ('move_dir', 'a_b', 'x'), ('copy_file', 'f', 'a'),
+             ('move_file', 'a', 'x'), ('move_dir', 'f', 'x')]
+
+
 def UO4():
     return Universe([Node('a', 'R', 'a'), Node('ab', 'R', 'ab'), Node('a_b', 'a', 'b'), Node('a_b_c', 'a_b', 'c'),
                      Node('x', 'R', 'x', True)], 'UO4')
 
 
-UNIVERSES.update({'UO3': UO3, 'UOW': UOW, 'UO4': UO4, 'UOD': UOD})
+UNIVERSES.update({'UO3': UO3, 'UOW': UOW, 'UO4': UO4, 'UOD': UOD, 'UOT': UOT})
 
 
 def layer_configs(u, nlayers, max_nodes=None):
@@ -175,16 +186,44 @@ def run_history_case(prog, params):
             removed = set()
             names = 'ovl%d' % n
             prev = []
-            for step, (op, v) in enumerate(hist):
+            def check_lower(key_base, op, v):
+                # C08 (ii): every lower layer is unchanged, observed through its own root
+                for li in range(1, n):
+                    lsnap = snapshot(sr, u, prefix='L%d_' % li)
+                    ld, lo = compare_tree(sr, u, lsnap, ov.layer_trees[li], prefix='L%d_' % li)
+                    for dv, kind, detail in ld:
+                        findings.append(make_finding('C08', '%s|layer%d_changed:%s' % (key_base, li, kind),
+                                                     'layer %d changed by %s %s: %s %s' % (li, op, v, dv, detail), sr))
+                    for dv, kind, cond in lo:
+                        m = ex.check(cond, 'layer bytes')
+                        if m is not None:
+                            findings.append(make_finding('C08', '%s|layer%d_changed:bytes' % (key_base, li),
+                                                         'layer %d file %s changed by %s %s' % (li, dv, op, v), sr, m))
+            for step, item in enumerate(hist):
+                op, v = item[0], item[1]
+                dst = item[2] if len(item) > 2 else None
                 role = layer_role(cfg, v, n) if t.kind(v) != 'absent' or step == 0 else 'n/a'
-                key_base = '%s|%s|%s|init=%s%s' % (names, op, target_class(t, v), role, ('|after:' + '+'.join(prev)) if prev else '')
+                key_base = '%s|%s|%s|init=%s%s' % (names, op, target_class(t, v) + (('->' + target_class(t, dst)) if dst else ''), role,
+                                                   ('|after:' + '+'.join(prev)) if prev else '')
                 start = len(sr.outcomes)
                 ov.log = []
-                line, data = op_line(op, v, sr, ex, 1)
-                out = sr.do(line)
-                o = sr.last
-                oplog = list(ov.log)
-                exp = contract(t, op, v, data=data)
+                if dst is not None:
+                    from .transfer import transfer_contract
+                    line, data = '%s %s %s' % (op, v, dst), None
+                    out = sr.do(line)
+                    o = sr.last
+                    oplog = list(ov.log)
+                    st_, nts_, _ntd, ret_, why_ = transfer_contract(op, t, t, v, dst, True)
+                    # a refused transfer must leave the tree alone only when the destination exists (C11); other failures: unspecified here
+                    if st_ == 'err' and why_ != 'destination exists':
+                        st_ = 'unspecified'
+                    exp = Expect(st_, None, nts_ if st_ == 'ok' else None, None, why_)
+                else:
+                    line, data = op_line(op, v, sr, ex, 1)
+                    out = sr.do(line)
+                    o = sr.last
+                    oplog = list(ov.log)
+                    exp = contract(t, op, v, data=data)
                 if o.tag in ('panic', 'deadlock'):
                     findings.append(make_finding('C13', '%s|%s:%s' % (key_base, o.tag, o.where or '?'),
                                                  '%s on %s panics: %s' % (op, v, o.msg), sr))
@@ -201,7 +240,13 @@ def run_history_case(prog, params):
                 ok_contract = True
                 nf = len(findings)
                 ctag = params.get('tag', 'C09')
-                if props & {'C09', 'C01', ctag}:
+                if dst is not None:
+                    if exp.status == 'ok' and not o.ok and o.tag == 'err' and props & {'C09', 'C01', ctag}:
+                        findings.append(make_finding(ctag, key_base + '|unexpected_err:%s' % o.kind, '%s %s -> %s must succeed but returned %s' % (op, v, dst, o.brief()), sr))
+                    if exp.status == 'err' and o.ok and props & {'C09', 'C01', ctag}:
+                        findings.append(make_finding(ctag, key_base + '|unexpected_ok', '%s %s -> %s succeeded although %s' % (op, v, dst, exp.why), sr))
+                    ok_contract = len(findings) == nf
+                elif props & {'C09', 'C01', ctag}:
                     check_outcome(props, out, exp, op, key_base, findings, sr, t, v, prop=ctag)
                     ok_contract = len(findings) == nf
                 if exp.status == 'either':
@@ -217,6 +262,8 @@ def run_history_case(prog, params):
                     if 'C03' in props and not (exp.status == 'unspecified' and v == 'R'):
                         snap = snapshot(sr, u)
                         check_wellformed(sr, u, snap, key_base, findings)
+                    if 'C08' in props:
+                        check_lower(key_base, op, v)      # lower layers stay untouched whatever the contract says about the call
                     break
                 # observe everything
                 ov.log = []
@@ -263,18 +310,7 @@ def run_history_case(prog, params):
                     if sr.last.ok and sr.last.value is True:
                         findings.append(make_finding('C10', key_base + '|bookkeeping_visible@exists', 'exists("/.whiteout") is true after %s' % op, sr))
                 if 'C08' in props:
-                    # (ii) every lower layer is unchanged, observed through its own root
-                    for li in range(1, n):
-                        lsnap = snapshot(sr, u, prefix='L%d_' % li)
-                        ld, lo = compare_tree(sr, u, lsnap, ov.layer_trees[li], prefix='L%d_' % li)
-                        for dv, kind, detail in ld:
-                            findings.append(make_finding('C08', '%s|layer%d_changed:%s' % (key_base, li, kind),
-                                                         'layer %d changed by %s %s: %s %s' % (li, op, v, dv, detail), sr))
-                        for dv, kind, cond in lo:
-                            m = ex.check(cond, 'layer bytes')
-                            if m is not None:
-                                findings.append(make_finding('C08', '%s|layer%d_changed:bytes' % (key_base, li),
-                                                             'layer %d file %s changed by %s %s' % (li, dv, op, v), sr, m))
+                    check_lower(key_base, op, v)
                 if 'C12' in props:
                     check_errors(sr, u, key_base, findings, start, [v])
                 if 'C13' in props:
@@ -283,7 +319,7 @@ def run_history_case(prog, params):
                             findings.append(make_finding('C13', '%s|observer_%s:%s' % (key_base, oo.tag, oo.where or '?'),
                                                          'observer `%s` after %s panics: %s' % (line_, op, oo.msg), sr))
                 # bookkeeping for C10
-                if o.ok and op in ('remove_file', 'remove_dir', 'remove_dir_all'):
+                if o.ok and op in ('remove_file', 'remove_dir', 'remove_dir_all', 'move_file', 'move_dir'):
                     removed.add(v)
                     removed.update(u.descendants(v))
                 if o.ok and op in ('create_dir', 'write', 'create_dir_all'):
@@ -293,7 +329,7 @@ def run_history_case(prog, params):
                 t = t_next
                 prev.append(op)
             if not res.samples:
-                res.samples.append({'layers': cfg_str(cfg), 'history': ['%s %s' % x for x in hist],
+                res.samples.append({'layers': cfg_str(cfg), 'history': [' '.join(x) for x in hist],
                                     'outcomes': [o for l, o in sr.log if l.split()[0] in HIST_OPS + OBS_OPS][:4],
                                     'path_condition_size': len(ex.pc)})
             return findings
